@@ -211,7 +211,10 @@ def avp_positions(body, base=0, depth=0):
             break
         vendor = int.from_bytes(body[p + 8:p + 12], "big") if fl & 0x80 else 0
         out.append((base + p, L))
-        e = avpmod.get_avp_dictionary_entry(code, vendor)
+        try:
+            e = avpmod.get_avp_dictionary_entry(code, vendor)
+        except Exception:       # the generator must not depend on the library being right: the oracle judges the lookup
+            e = None
         if e is not None and issubclass(e["type"], AvpGrouped) and depth < 20:
             out += avp_positions(body[p + hl:p + L], base + p + hl, depth + 1)
         p += (L + 3) // 4 * 4
@@ -472,6 +475,46 @@ def run(tier, seed, only=None):
         traces |= trs
         for sig, detail, tag, hx, ops in out:
             ck.violation(sig, "%s (input class %s, %d octets)" % (detail, tag, len(hx) // 2), {"hex": hx, "ops": ops, "tag": tag})
+    # ---- C. malformed payloads must raise the decode error: Wire!PayloadOk, evaluated by TLC, says which are malformed ----
+    if only is None:
+        rng = random.Random(seed + 4)
+        entries = codec.dictionary()
+        by_kind = {}
+        for e in entries:
+            by_kind.setdefault(codec.kind_of(e[2]), []).append(e)
+        cases = []
+        for kind in ("i32", "u32", "i64", "u64", "f32", "f64", "time", "utf8", "addr"):
+            pool = by_kind.get(kind, [])
+            if not pool:
+                continue
+            e = pool[0]
+            seen_pl = set()
+            for n in range(0, 21):
+                for pl in payload_variants(kind, n, rng) + ([bytes([f]) for f in (0, 1, 2, 5, 8)] if kind == "addr" and n == 1 else []):
+                    if pl not in seen_pl:
+                        seen_pl.add(pl)
+                        cases.append((kind, e, pl))
+        verdicts = tlc.evaluate("WireEval", [{"op": "payload", "k": k, "p": list(pl)} for k, e, pl in cases], "c04_payload", timeout=1800)
+        n_bad = 0
+        for (kind, e, pl), v in zip(cases, verdicts):
+            if v["ok"]:
+                continue
+            n_bad += 1
+            try:
+                a = Avp.from_bytes(raw_avp(e[0], e[1], pl))
+                val = a.value
+            except ALLOWED:
+                continue
+            except BaseException as ex:
+                ck.violation("value_raised:%s:%s" % (kind, type(ex).__name__), "%s payload %s: reading the value raised %r" % (kind, pl.hex(), ex),
+                             {"hex": raw_avp(e[0], e[1], pl).hex(), "ops": ["avp"], "tag": "payload_ok:" + kind})
+                continue
+            ck.violation("malformed_payload_accepted:%s" % kind, "%s payload %s (%d octets) is malformed for its type but .value returned %r instead of raising the decode error" % (
+                kind, pl.hex(), len(pl), val), {"hex": raw_avp(e[0], e[1], pl).hex(), "ops": ["avp"], "tag": "payload_ok:" + kind, "expect_value_error": True})
+        ck.cov["payloads_judged_by_PayloadOk"] = len(cases)
+        ck.cov["payloads_malformed"] = n_bad
+        if n_bad < 50:
+            raise tlc.TlcError("vacuity: Wire!PayloadOk called only %d of %d payloads malformed" % (n_bad, len(cases)))
     # cursor traces validated by TLC against Unpack
     tl = sorted(traces, key=lambda t: (len(t[2]), t[1], t[0]))
     small = [t for t in tl if len(t[2]) <= 64]
@@ -547,6 +590,15 @@ def run(tier, seed, only=None):
 def replay(path, seed):
     body = json.load(open(path))
     rp = body.get("replay", body)
+    if rp.get("expect_value_error"):
+        try:
+            val = Avp.from_bytes(bytes.fromhex(rp["hex"])).value
+        except ALLOWED:
+            print("replayed: reading the value raises the decode error")
+            return 0
+        print("replayed: .value returned %r" % (val,))
+        print("VIOLATION property=C04 replay=%s" % path)
+        return 1
     if "hex" in rp:
         return run("quick", seed, only=[(rp.get("tag", "replay"), bytes.fromhex(rp["hex"]), tuple(rp.get("ops", ("typed", "plain", "avp"))))])
     return run("quick", body.get("seed", seed))
